@@ -72,10 +72,9 @@ def analyse(ctx: Ctx, classes: dict, decorators: dict | None, where: str, rel: s
     pos = classes["Position"]
     for m in ("__eq__", "__gt__", "__repr__"):
         ctx.check(m in pos, "method-present", f"{where}:Position.{m}", f"Position.{m} is not defined", rel)
-    extra_order = [m for m in ("__lt__", "__le__", "__ge__", "__ne__") if m in pos]
-    if extra_order:
-        raise AnalysisError(f"{rel}: Position defines {extra_order} by hand; only the total_ordering derivation "
-                            "from __gt__/__eq__ is modelled")
+    # operators written by hand are evaluated as written; missing ones are derived as functools.total_ordering
+    # derives them from __gt__ (A5) -- which requires the decorator to be present (checked below)
+    handwritten = [m for m in ("__lt__", "__le__", "__ge__", "__ne__") if m in pos]
     if "__eq__" not in pos or "__gt__" not in pos:
         return
     unproved = []
@@ -132,6 +131,14 @@ def analyse(ctx: Ctx, classes: dict, decorators: dict | None, where: str, rel: s
         if isinstance(eq, bool) and isinstance(gt, bool):
             # functools.total_ordering from __gt__: lt = not gt and not eq; ge = gt or eq; le = not gt
             lt, ge, le, ne = (not gt and not eq), (gt or eq), (not gt), (not eq)
+            if "__lt__" in pos:
+                lt = call("Position", "__lt__", a, b)
+            if "__ge__" in pos:
+                ge = call("Position", "__ge__", a, b)
+            if "__le__" in pos:
+                le = call("Position", "__le__", a, b)
+            if "__ne__" in pos:
+                ne = call("Position", "__ne__", a, b)
             ctx.check([lt, eq, gt].count(True) == 1, "trichotomy", case,
                       f"lt={lt} eq={eq} gt={gt} for ({sl},{sc}) vs ({ol},{oc})", rel)
             ok = (lt == ((sl, sc) < (ol, oc)) and ge == ((sl, sc) >= (ol, oc)) and le == ((sl, sc) <= (ol, oc))
@@ -141,7 +148,7 @@ def analyse(ctx: Ctx, classes: dict, decorators: dict | None, where: str, rel: s
     # foreign operands
     for label, other in (("foreign-object", Record("Other", {}, classes)), ("int", 5), ("none", None),
                          ("tuple", (1, 2)), ("range", R(P(0, 0), P(0, 1)))):
-        for cls, meths, mk in (("Position", ("__eq__", "__gt__"), P(1, 2)),
+        for cls, meths, mk in (("Position", tuple(["__eq__", "__gt__"] + [h for h in handwritten if h != "__ne__"]), P(1, 2)),
                                ("Range", ("__eq__",), R(P(0, 0), P(1, 1))),
                                ("Location", ("__eq__",), L("u", R(P(0, 0), P(1, 1))))):
             if cls == "Range" and label == "range":
@@ -185,8 +192,9 @@ def analyse(ctx: Ctx, classes: dict, decorators: dict | None, where: str, rel: s
                                 "boundary grid found no counter-example; the property is undecided for this code")
     if decorators is not None:
         d = decorators
-        ctx.check("functools.total_ordering" in d["Position"], "decorators", f"{where}:Position:total_ordering",
-                  "Position lacks @functools.total_ordering: <, <=, >= are undefined", rel)
+        all_by_hand = all(m in pos for m in ("__lt__", "__le__", "__gt__", "__ge__"))
+        ctx.check("functools.total_ordering" in d["Position"] or all_by_hand, "decorators", f"{where}:Position:total_ordering",
+                  "Position lacks @functools.total_ordering and does not define all of <, <=, >, >= itself", rel)
         for cn in ("Position", "Range", "Location"):
             ok = any(x == "attrs.define" for x in d[cn])
             ctx.check(ok, "decorators", f"{where}:{cn}:attrs.define",
